@@ -52,6 +52,13 @@ pub fn inputs(seed: u64, extra: usize) -> Vec<(String, Vec<u8>)> {
             }
         }
     }
+    // one input per label of the codec crate's table (as generated on this run), in its exact spelling, declared in-band
+    // in front of a Latin-1 body: whatever a label resolves to must be the same in every process
+    for (i, l) in all_labels().iter().enumerate() {
+        let mut b = format!("# -*- coding: {} -*-\n", l).into_bytes();
+        b.extend_from_slice(b"caf\xe9 cr\xe8me br\xfbl\xe9e, d\xe9j\xe0 vu: na\xefve fa\xe7ade et co\xfbt \xe9lev\xe9, \xe0 bient\xf4t");
+        v.push((format!("declared-label-{}-{}", i, l.replace(' ', "_")), b));
+    }
     for i in 0..extra {
         // multi-script texts: two or three corpus texts glued, in utf-8
         let k = rng.range(2, 3);
